@@ -702,15 +702,15 @@ impl<T: PPGEvaluatorStrategy> PPGEvaluator<T> {
         }
 
         let filter_if_renamed = |job_id: &str| -> bool {
-            if job_id.contains(":::") {
-                let last_time = multi_parts_to_jobs.get(job_id);
-                match last_time {
-                    Some(last_time) => last_time == job_id,
+            // keep, unless one of its outputs is now produced by a job of a different name
+            // (note that a FG can become an MFG and vice versa, so this has to look at
+            // every job_id, not just those containing ":::")
+            job_id
+                .split(":::")
+                .all(|part| match multi_parts_to_jobs.get(part) {
+                    Some(current_producer) => current_producer == job_id,
                     None => true, //not present.
-                }
-            } else {
-                return true;
-            }
+                })
         };
 
         let mut out = self.history.clone();
